@@ -218,10 +218,13 @@ func vfKeystoreReset(factory bool) {
 	if ev != 0 {
 		evAt = 8*vfChoose("eventAtDatastoreOp/8", (vfParam("MAXOPS")+7)/8) + vfChoose("eventAtDatastoreOp%8", 8)
 	}
-	putTwice := false
+	putTwice, putAll := false, false
 	if ev == 1 {
 		cIdx = vfChoose("putKey", 3)
 		putTwice = vfBool("putNamesTheKeyTwice")
+		if !putTwice {
+			putAll = vfBool("putNamesAllThreeKeys")
+		}
 	}
 	rctx, rcancel := context.WithCancel(ctx)
 	defer rcancel()
@@ -229,7 +232,27 @@ func vfKeystoreReset(factory bool) {
 	fired := false
 	putAckedAt, closeReturned := -1, false
 	var putErr, closeErr error
+	// a second Put (all three keys: more than the buffer holds) some operations
+	// after the first one, so that it can land after the last drain of the reset
+	secondAt, secondFired := -1, false
+	waiting := false // a hook is letting its event run (only one at a time)
+	var secondErr error
+	secondAcked := false
+	if ev == 1 && !putTwice && !putAll && vfBool("aSecondPutOfAllThreeKeysFollows") {
+		secondAt = evAt + 1 + vfChoose("secondPutAfterOps", 12)
+	}
 	disk.hook = func() {
+		if secondAt >= 0 && !secondFired && fired && !waiting && disk.ops-base >= secondAt+1 {
+			secondFired = true
+			go func() {
+				_, secondErr = ks.Put(ctx, all[0], all[1], all[2])
+				secondAcked = secondErr == nil
+			}()
+			waiting = true
+			vfWaitIdle()
+			waiting = false
+			return
+		}
 		if ev == 0 || fired || disk.ops-base != evAt+1 {
 			return
 		}
@@ -237,7 +260,10 @@ func vfKeystoreReset(factory bool) {
 		switch ev {
 		case 1:
 			go func() {
-				if putTwice {
+				if putAll {
+					// more keys than the reset buffer holds: the worker has to wait for room
+					_, putErr = ks.Put(ctx, all[0], all[1], all[2])
+				} else if putTwice {
 					_, putErr = ks.Put(ctx, all[cIdx], all[cIdx])
 				} else {
 					_, putErr = ks.Put(ctx, all[cIdx])
@@ -254,7 +280,9 @@ func vfKeystoreReset(factory bool) {
 				closeReturned = true
 			}()
 		}
+		waiting = true
 		vfWaitIdle() // the event runs until it blocks or finishes
+		waiting = false
 	}
 	ch := make(chan cid.Cid, 3)
 	for i, in := range newSet {
@@ -269,6 +297,10 @@ func vfKeystoreReset(factory bool) {
 	if ev != 0 && !fired {
 		return // the chosen operation index lies beyond this run: same as "no event"
 	}
+	if secondAt >= 0 && !secondFired {
+		return
+	}
+	vfAssert(secondErr == nil, "reset/concurrent-put-succeeds")
 	if ev == 0 {
 		// unwinding check: every datastore operation of the reset was a candidate position
 		vfAssert(disk.ops-base <= 8*((vfParam("MAXOPS")+7)/8), "bound/MAXOPS-covers-every-datastore-operation-of-the-reset")
@@ -288,6 +320,14 @@ func vfKeystoreReset(factory bool) {
 		out := append([]bool{}, set...)
 		if acked {
 			out[cIdx] = true
+			if putAll {
+				out[0], out[1], out[2] = true, true, true
+			}
+		}
+		if secondAcked {
+			// acknowledged before anything checked below happens (crashes are not
+			// combined with a second put)
+			out[0], out[1], out[2] = true, true, true
 		}
 		return out
 	}
@@ -328,7 +368,7 @@ func vfKeystoreReset(factory bool) {
 		vfAssert(sz == len(keys), "reset/size-matches")
 	}
 	L := len(disk.journal)
-	if vfBool("crash") {
+	if secondAt < 0 && vfBool("crash") {
 		cut := n0 + vfChoose("crash.cut", L-n0+1)
 		d2 := disk.crashed(cut)
 		ks2 := vfOpenResettable(d2, factory)
